@@ -51,7 +51,29 @@ RULE = ("mock mappers over random symmetric multigraph neighbour arrays (rings, 
         "comparisons RELATIVE to the scale of the entry (sqrt(H_aa H_bb)); PIXEL SIGNALS: mapper.pixel_signals_from on every real mapper "
         "whose scheme reads signals and mapper_util.adaptive_pixel_signals_from directly (single-vertex and interpolated rows, padded rows, "
         "pixels nobody maps to, powers 0..3, zeros / ties / 2^-34 data, out-of-range index / size / slim -> exception) against the model (case "
-        "KSignals). Non-trivial = at least 3 parameters and 2 neighbour pairs / cross rows (high-degree meshes: a vertex of degree > 20); "
+        "KSignals). PHASE 4 (pre-emptive hardening): (f) INPUT KINDS -- every scheme on objects of 1..4 parameters with the coefficients given as "
+        "Python ints / numpy.int64 / numpy.float32 / numpy.float64 / 0-d arrays, the signals as int64 / bool / float32 arrays, the neighbour and "
+        "split-cross arrays as int8 / int32 arrays, Fortran-ordered arrays and non-contiguous views into larger buffers, through the class, "
+        "LinearObj.regularization_matrix and the util functions: every observation bit-equal to the float64 one (all values few-bit dyadic, so "
+        "float32 arithmetic is exact), a differing one goes to Coq; SUBCLASS instances of every scheme class, of MockMapper / MapperRectangular / "
+        "MapperDelaunay, of Mesh2DRectangular / Mesh2DDelaunay (the Mapper factory must still build the right mapper), of mesh.Rectangular / "
+        "mesh.Delaunay; Delaunay vertices as Grid2DIrregular / Grid2DIrregularUniform / ndarray / list; integer- and float32-typed adapt images, "
+        "data of shape 1 x 5 / 5 x 1; shape_native as list / ndarray / numpy ints; pixel-signal util with integer data, int8 / int32 indexes, float32 "
+        "weights, views; real inversions on a SINGLE unmasked pixel / two pixels; (g) the shared DEFAULT-ARGUMENT objects of every callable on the "
+        "route (SettingsInversion(), Preloads(), OverSamplingDataset() of aa.Inversion, the factories, the six inversion classes, "
+        "mesh.*.mapper_grids_from, Imaging, Interferometer) and one caller-owned settings / preloads pair fingerprinted before / after; SEQUENCES of "
+        "2-3 DIFFERENT inversions in one process through those shared objects (imaging and INTERFEROMETER datasets -- real and imaginary noise "
+        "differing --, no regularized object at all, then the first one again), each against the block assembly of what fresh objects return, the "
+        "caller's list of linear objects left alone; the public mesh-class route mesh.Rectangular / mesh.Delaunay .mapper_grids_from -> Mapper "
+        "factory against the direct route; (a) sequences through module-level functions: rectangular_neighbors_from for the transposed shape, a "
+        "shape with the same pixel count, the same first / second dimension, then this shape again (also through Mesh2DRectangular.neighbors); one "
+        "kernel scheme object on two point sets of the same size and on the first again, scale / coefficient edited in place, the sibling kernel on "
+        "the same points (case KCov + KKernel per observation); one real mapper asked for ANOTHER signal scale and the scheme's signal_scale edited "
+        "in place, against a fresh mapper; the pixel-signal util on a second data image; two Delaunay meshes of the same vertex count in one process, "
+        "both neighbour tables against their triangulations; the attached scheme's coefficients edited in place / detached (regularization = None); "
+        "(d) every util function's array arguments compared with copies after the call (reg_split_from works in place by design); sibling mesh: "
+        "Mesh2DVoronoi / MapperVoronoi with Constant / ConstantZeroth / Zeroth, the neighbour table against voronoi.ridge_points. "
+        "Non-trivial = at least 3 parameters and 2 neighbour pairs / cross rows (high-degree meshes: a vertex of degree > 20); "
         "distinct = distinct JSON input.")
 EXHAUSTIVE = {"quick": "rectangular_neighbors_from: all shapes 1..8 x 1..8", "thorough": "rectangular_neighbors_from: all shapes 1..12 x 1..12"}
 TRUSTED = ["hand-written Gallina model coq/Model/C07.v (update lists in the code's loop order + scatter), tied to /repo by this "
@@ -954,6 +976,11 @@ def run_rectnb(aa, inp):
             if rect_table_py(a, b) is not None and [sorted(r) for r in t] != rect_table_py(a, b): ok = False; detail["transposed"] = "not the 4-neighbourhood of the transposed shape"
         elif rect_table_py(a, b) is None or [sorted(r) for r in t] != rect_table_py(a, b): extra.append(f"(KRect {cnat(a)} {cnat(b)} {czm(t)})"); detail["other"] = [a, b]
         if a >= 3 and b >= 3 and table_cls(a, b)[0] != t: ok = False; detail["class_other"] = [a, b]
+    # (f) the shape given as a list / an integer ndarray / numpy integers
+    for label, sn in (("list", [h, w]), ("ndarray", np.array([h, w])), ("numpy ints", (np.int64(h), np.int32(w)))):
+        nbk, szk = aa.util.mesh.rectangular_neighbors_from(shape_native=sn)
+        if [[int(x) for x in r[:int(k)]] for r, k in zip(nbk, szk)] != rows:
+            ok = False; detail["shape as " + label] = "differs"; extra.append(f"(KRect {cnat(h)} {cnat(w)} {czm([[int(x) for x in r[:int(k)]] for r, k in zip(nbk, szk)])})")
     again = table(h, w)
     if again != rows: ok = False; detail["again"] = "the second call for this shape differs from the first"; extra.append(f"(KRect {cnat(h)} {cnat(w)} {czm(again)})")
     if h >= 3 and w >= 3 and table_cls(h, w)[0] != rows: ok = False; detail["class_again"] = "Mesh2DRectangular.neighbors differs after other shapes were asked for"
@@ -1278,7 +1305,7 @@ def phase3_inputs(rng, big):
         if s2["par"] == s1["par"]: s2["par"] = [str(Fraction(x) + 1) for x in s2["par"]]
         yield {"op": "reuse", "real": i % 3 == 2, "scheme": s1, "scheme_edit": s2, "scheme_other": rand_scheme(rng, SCHEMES[(i + 3) % 7]),
                "objA": rand_mock_obj(rng, n1), "objB": rand_mock_obj(rng, n2), "seed": rng.randrange(10 ** 9),
-               "mesh": ["rect", "delaunay"][(i // 3) % 2], "signal_scale": rng.choice([1, 2])}
+               "mesh": ["rect", "delaunay"][(i // 3) % 2], "signal_scale": rng.choice([1, 2]), "same_count": i % 2 == 1}
     # (e) tiny / huge coefficients and signals (mock mappers: exact), real meshes with anisotropic pixels and shifted origins
     for i in range(168 if big else 42):
         n = rng.randint(3, 6)
@@ -1495,7 +1522,7 @@ def run_reuse(aa, inp):
                     mesh = aa.Mesh2DRectangular.overlay_grid(shape_native=(3, 3) if which == "A" else (3, 4), grid=grid)
                 else:
                     pts = set()
-                    while len(pts) < (6 if which == "A" else 8): pts.add((r2.randint(-8, 8) / 4.0, r2.randint(-8, 8) / 4.0))
+                    while len(pts) < (6 if which == "A" or inp.get("same_count") else 8): pts.add((r2.randint(-8, 8) / 4.0, r2.randint(-8, 8) / 4.0))
                     pts = sorted(pts); r2.shuffle(pts)
                     mesh = aa.Mesh2DDelaunay(values=aa.Grid2DIrregular(pts)); mesh.delaunay
                 mg = aa.MapperGrids(mask=mask, source_plane_data_grid=grid, source_plane_mesh_grid=mesh, adapt_data=adapt)
@@ -1546,6 +1573,10 @@ def run_reuse(aa, inp):
     if not (fresh_each_call and split and split2):
         mC.regularization = make_reg(aa, S2)
         observe("6:A.regularization_matrix, other scheme", s2, "A", lambda: mC.regularization_matrix)
+    # (c) the scheme detached again: an all-zero block of the object's size
+    mC.regularization = None
+    Z = np.asarray(mC.regularization_matrix)
+    if Z.shape != (int(mC.params), int(mC.params)) or bool(np.any(Z != 0.0)): ok = False; notes["detached"] = "regularization = None does not give an all-zero params x params block"
     if inp["real"]:
         # (c) the adapt image edited in place by the user: the signals (and the weights) follow
         mD = mk["A"]()
@@ -1557,6 +1588,9 @@ def run_reuse(aa, inp):
             oD = obj_from_mapper(mD, S1, ss, inp["mesh"] == "delaunay")
             outD = call(lambda: regD.regularization_matrix_from(linear_obj=mD))
             terms.append(f"(KMatrix {cscheme(s1)} {clobj(fo(oD))} {cres_m(outD)})")
+        if inp["mesh"] == "delaunay":
+            for which, m in (("A", mA), ("B", mB)):
+                if not delnb_case(m.source_plane_mesh_grid, coq=False)[1]: ok = False; notes["neighbors " + which] = "not the edge set of delaunay.simplices"
         # (d) the arrays of the objects after all these calls
         if fingerprint(mA) != fingerprint(mk["A"]()) or fingerprint(mB) != fingerprint(mk["B"]()):
             ok = False; notes["inputs"] = "a mapper's arrays were modified by the calls"
@@ -1673,6 +1707,13 @@ def phase4_inputs(rng, big):
                 objs.append(o)
             st.append(objs)
         yield {"op": "seq", "route": route, "mask": MASKS[j % len(MASKS)], "seed": rng.randrange(10 ** 9), "stages": st, "sub": j % 2 == 1}
+    # (f)(h) real inversions on a SINGLE unmasked pixel, two pixels, a one-row mask
+    small = [["111", "101", "111"], ["1111", "1001", "1111"], ["111", "101", "101", "111"]]
+    for i in range(12 if big else 3):
+        kinds = [["func", "rect"], ["delaunay", "func"], ["rect", "lin"]][i % 3]
+        objs = [rand_real_obj(rng, kd, rng.random() < 0.8) for kd in kinds]
+        if i % 3 == 0: objs[1]["scheme"] = rand_scheme(rng, rng.choice(["AdaptiveBrightness", "BrightnessZeroth"]))
+        yield {"op": "realinv", "mask": small[(i + i // 3) % 3], "seed": rng.randrange(10 ** 9), "objs": objs, "check_blocks": True}
     # (a)(c)(f) kernel schemes: one scheme object on two point sets of the same size and on the first again, scale / coefficient edited in
     #     place, the sibling kernel on the same points, subclass, integer-typed coordinates
     for i in range(24 if big else 4):
@@ -1791,10 +1832,13 @@ def run_seq(aa, inp):
         return out
     def invert(k, objs):
         r = route if route != "mixed" else ["default", "ifm", "shared", "ifm_shared"][k % 4]
-        if r == "default": return aa.Inversion(dataset=ds, linear_obj_list=objs)
-        if r == "shared": return aa.Inversion(dataset=ds, linear_obj_list=objs, settings=shared_settings, preloads=shared_preloads)
-        if r == "ifm": return aa.Inversion(dataset=ifm, linear_obj_list=objs)
-        return aa.Inversion(dataset=ifm, linear_obj_list=objs, settings=shared_settings, preloads=shared_preloads)
+        # (the timed path of @profile_func -- run_time_dict given -- cannot be exercised under the library's own default configuration:
+        #  general.yaml has no profiling.repeats entry, every profiled property raises KeyError there; outside this property)
+        kw = {}
+        if r == "default": return aa.Inversion(dataset=ds, linear_obj_list=objs, **kw)
+        if r == "shared": return aa.Inversion(dataset=ds, linear_obj_list=objs, settings=shared_settings, preloads=shared_preloads, **kw)
+        if r == "ifm": return aa.Inversion(dataset=ifm, linear_obj_list=objs, **kw)
+        return aa.Inversion(dataset=ifm, linear_obj_list=objs, settings=shared_settings, preloads=shared_preloads, **kw)
     ok, notes, terms, classes, shapes = True, {}, [], [], []
     first = None
     stages = list(inp["stages"]) + [inp["stages"][0]]
@@ -1806,11 +1850,13 @@ def run_seq(aa, inp):
         blocks_np = [np.asarray(lo.regularization_matrix, dtype=float) for lo in objs2]
         blocks = [mat_out(b) for b in blocks_np]
         Hs = assemble(blocks_np); Hrs = assemble([b for b, r in zip(blocks_np, regd) if r])
+        ids = [id(x) for x in objs]
         try:
             inv = invert(k, objs)
             H = np.asarray(inv.regularization_matrix, dtype=float); Hr = np.asarray(inv.regularization_matrix_reduced, dtype=float)
         except Exception as e:
             ok = False; notes[f"stage {k}"] = "raised " + type(e).__name__ + ": " + str(e)[:200]; continue
+        if [id(x) for x in objs] != ids: ok = False; notes[f"stage {k}:list"] = "the caller's list of linear objects was modified"      # (d)
         classes.append(type(inv).__name__); shapes.append([int(H.shape[0]), int(Hr.shape[0]) if Hr.ndim == 2 else -1])
         good = same(H, Hs) and same(Hr.reshape(Hrs.shape) if Hr.size == Hrs.size else Hr, Hrs)
         if not good: ok = False; notes[f"stage {k}"] = "regularization_matrix(_reduced) is not the block assembly of this stage's objects"
